@@ -110,3 +110,24 @@ def bytes_str_agree(mode, pats, kwargs, name=None):
 def mixed_type_failures():
     from props.c18 import mixed_type_cases
     return mixed_type_cases()
+
+
+def escape_check(kind, mode, s, flags, name):
+    """Does the (escaped / non-magic) pattern built from s accept `name`?"""
+    m = _mod(mode)
+    if kind == 'nonmagic':
+        pat = s
+    elif mode == 'fn':
+        pat = m.escape(s)
+    else:
+        f = flags
+        if f & m.FORCEWIN and f & m.FORCEUNIX:
+            f ^= m.FORCEWIN | m.FORCEUNIX
+        pat = m.escape(s, unix=not bool(f & m.FORCEWIN))
+    fn = getattr(m, 'fnmatch' if mode == 'fn' else 'globmatch')
+    return fn(name, pat, flags=flags & ~getattr(m, 'REALPATH', 0)) if not (flags & getattr(m, 'REALPATH', 0)) else _regex_accepts(m, pat, flags, name)
+
+
+def _regex_accepts(m, pat, flags, name):
+    c = m.compile(pat, flags=flags)._matcher
+    return bool(name) and any(p.fullmatch(name) for p in c._include) and not any(p.fullmatch(name) for p in (c._exclude or ()))
